@@ -81,6 +81,23 @@ def successor_construction(ctx, rule):
 
 
 
+def dh_writers(ctx, rule):
+    prog = ctx.prog
+    # self.dh is the DH object of our *own outstanding request*: a responder-side negotiation that stored its DH object there would
+    # overwrite the private value of a request of ours that is in flight (crossing exchanges) and the two peers would derive
+    # different keys.  Frozen who-writes table, confirmed by reading: the two request generators and the two INVALID_KE retries.
+    writers = set()
+    for fi in prog.cls(IKESA).methods.values():
+        if isinstance(fi.node, ast.FunctionDef) and any(t == attr(P('self'), 'dh') for t, _, _, _, _ in ctx.sval(fi).stores):
+            writers.add(fi.name)
+    allowed = {'__init__', '_generate_ike_sa_negotiation_request', '_generate_child_sa_negotiation_req', 'process_ike_sa_init_response',
+               'process_create_child_sa_response'}
+    ctx.check(writers <= allowed and {'_generate_ike_sa_negotiation_request', '_generate_child_sa_negotiation_req'} <= writers, rule,
+              'self.dh (the DH object of our own outstanding request) is written only where a request or its INVALID_KE retry is '
+              'generated, never while answering the peer\'s request', key=(rule, 'dh-writers', ','.join(sorted(writers - allowed))),
+              detail={'writers': sorted(writers)})
+
+
 def run(ctx):
     prog = ctx.prog
 
@@ -194,19 +211,7 @@ def run(ctx):
         kept = [v for t, v, _, _, _ in S.stores if t == attr(P('self'), 'ike_sa_keyring')]
         ctx.check(len(kept) == 1 and kept[0] == c.term, 'O3', '%s keeps the derived keyring' % fi.name,
                   key=('O3', q, 'keyring'), site=ctx.site(fi, c.node))
-    # self.dh is the DH object of our *own outstanding request*: a responder-side negotiation that stored its DH object there would
-    # overwrite the private value of a request of ours that is in flight (crossing exchanges) and the two peers would derive
-    # different keys.  Frozen who-writes table, confirmed by reading: the two request generators and the two INVALID_KE retries.
-    dh_writers = set()
-    for fi in prog.cls(IKESA).methods.values():
-        if isinstance(fi.node, ast.FunctionDef) and any(t == attr(P('self'), 'dh') for t, _, _, _, _ in ctx.sval(fi).stores):
-            dh_writers.add(fi.name)
-    allowed = {'__init__', '_generate_ike_sa_negotiation_request', '_generate_child_sa_negotiation_req', 'process_ike_sa_init_response',
-               'process_create_child_sa_response'}
-    ctx.check(dh_writers <= allowed and {'_generate_ike_sa_negotiation_request', '_generate_child_sa_negotiation_req'} <= dh_writers, 'O3',
-              'self.dh (the DH object of our own outstanding request) is written only where a request or its INVALID_KE retry is '
-              'generated, never while answering the peer\'s request', key=('O3', 'dh-writers', ','.join(sorted(dh_writers - allowed))),
-              detail={'writers': sorted(dh_writers)})
+    dh_writers(ctx, 'O3')
     # callers: old SK_d and Ni
     callers = [
         (IKESA + '.process_ike_sa_init_request', '_process_ike_sa_negotiation_request', False),
